@@ -659,10 +659,10 @@ class ParameterSet(NamedItem):
             try:
                 par = self.get_par(par_name, pop_name)
             except KeyError:
-                if pop_name:
-                    logger.debug(f"{par.name} in {pop_name} was not found, ignoring y-factors for this quantity")
+                if not pd.isna(pop_name):
+                    logger.debug(f"{par_name} in {pop_name} was not found, ignoring y-factors for this quantity")
                 else:
-                    logger.debug(f"{par.name} was not found, ignoring y-factors for this quantity")
+                    logger.debug(f"{par_name} was not found, ignoring y-factors for this quantity")
                 continue
 
             for k, v in values.items():
